@@ -494,7 +494,7 @@ func RunPublishProgram(p *Program) *Result {
 		return &Result{Trouble: "node: " + err.Error() + "\n" + spec.Render()}
 	}
 	w := &PublishWorld{SysWorld: sw}
-	w.Model = NewModel(QConfig{Backend: spec.Backend, MaxDepth: spec.MaxDepth, DropPolicy: spec.DropPolicy, DeliveredMaxAge: spec.Delivered})
+	w.Model = NewModel(sysQConfig(&spec))
 	defer w.Close()
 	w.Res.logf("publish world backend=%s routes=%d max_depth=%d/%s", spec.Backend, len(spec.Routes), spec.MaxDepth, spec.DropPolicy)
 	for _, s := range p.Steps {
